@@ -12,7 +12,7 @@ Nodes are plain tuples / lists so that an *edit* is (path, label, replacement) a
   ("lit", src, ty) ("var", name) ("list", [e, ...]) ("bin", op, l, r) ("call", fname, [args]) ("mcall", recv, mname, [args])
   ("dot", recv, field) ("struct", tname, [[field, e], ...]) ("if", c, block, block|None)
   ("match", scrut, [[("pat", variant, binder|None), block], ...]) ("lam", [[p, hint], ...], ret, block)
-  ("block", [stmt, ...])   stmt = expr | ("let", name, hint|None, e)
+  ("block", [stmt, ...])   stmt = expr | ("let", name, hint|None, e) | ("assign", name, e) | ("for", var, iterable, block)
   ("fun", name, [[p, hint], ...], ret, block)   ("prog", [fun, ...], [main expr, ...])
 
 Nothing here is random: every enumeration is a fixed-order product.
@@ -60,6 +60,10 @@ def src_block(b, ind):
 def src_stmt(s, ind):
     if s[0] == "let":
         return f"let {s[1]}{': ' + s[2] if s[2] else ''} = {src_expr(s[3], ind)}"
+    if s[0] == "assign":
+        return f"{s[1]} = {src_expr(s[2], ind)}"
+    if s[0] == "for":
+        return f"for {s[1]} in {src_expr(s[2], ind)} {src_block(s[3], ind)}"
     return src_expr(s, ind)
 
 
@@ -219,6 +223,8 @@ def typeof(e, scope, sigs):
             if s[0] == "let":
                 sc[s[1]] = typeof(s[3], sc, sigs)
                 t = "Unit"
+            elif s[0] in ("assign", "for"):
+                t = "Unit"
             else:
                 t = typeof(s, sc, sigs)
         return t
@@ -267,6 +273,7 @@ def _mk_templates():
     t("if-int", I, [B, I, I], lambda s: [("if", s[0], block(s[1]), block(s[2]))])
     t("let-int", I, [I, I], lambda s: [("let", "y", None, s[0]), ("bin", "+", var("y"), s[1])])
     t("let-ann-int", I, [I], lambda s: [("let", "y", "Int", s[0]), ("bin", "*", var("y"), lit("2", "Int"))])
+    t("for-sum", I, [L, I], lambda s: [("let", "t", None, s[1]), ("for", "x", s[0], block(("assign", "t", ("bin", "+", var("t"), var("x"))))), var("t")])
     t("call-inc", I, [I], lambda s: [("call", "inc", [s[0]])], "inc")
     t("call-unwrap", I, [O], lambda s: [("call", "unwrap", [s[0]])], "unwrap")
     t("call-code", I, [C], lambda s: [("call", "code", [s[0]])], "code")
@@ -484,12 +491,9 @@ for _o in LOGIC:
 OP_CLASS["^"] = "concat"
 
 
-SCALARS = ("Int", "String", "Bool", "Float", "Unit")
-
-
 def family(frm, to):
-    """Type family of a replacement as seen from the replaced node's type (keeps the signature set small:
-    exact types only where the payload of the same container changes)."""
+    """Type family of a replacement as seen from the replaced node's type. Keeps the signature set small: the exact
+    type only where the payload of the same container changes; tuples and functions are kept apart from other types."""
     if to == frm:
         return "same type"
     if to == "unbound":
@@ -498,13 +502,9 @@ def family(frm, to):
         return "function"
     if to in ("Tuple", "NoValue"):
         return to
-    if to.startswith(("List<", "Option<")):
-        return to if frm.split("<")[0] == to.split("<")[0] else "container"
-    if to in ("Color", "Pt"):
-        return "user type"
-    if to in SCALARS:
-        return "other scalar" if frm in SCALARS else "scalar"
-    return to
+    if to.startswith(("List<", "Option<")) and frm.split("<")[0] == to.split("<")[0]:
+        return to
+    return "other type"
 
 
 def apply_edit(node, path, repl):
@@ -590,6 +590,18 @@ class Edits:
                 r = f"let value ({'annotated' if hint else 'unannotated'})"
                 self.expr(e, p + (3,), sc, r, r)
                 sc[nm] = t
+            elif s[0] == "assign":
+                for nm in sorted(sc) + ["zz"]:
+                    if nm != s[1]:
+                        self.add(p + (1,), f"assignment target: {sc.get(s[1], '?')}→{family(sc.get(s[1], '?'), sc.get(nm, 'unbound'))}", nm,
+                                 f"assignment target {s[1]}→{nm}")
+                self.expr(s[2], p + (2,), sc, "assigned value", "assigned value")
+            elif s[0] == "for":
+                self.add(p + (1,), "loop variable renamed (uses become unbound)", "zz")
+                self.expr(s[2], p + (2,), sc, "for-loop iterable", "for-loop iterable")
+                sc2 = dict(sc)
+                sc2[s[1]] = "Int"
+                self.block(s[3], p + (3,), sc2, "loop body")
             else:
                 r = f"result of {kind}" if i == n - 1 else f"statement in {kind}"
                 self.expr(s, p, sc, r, r)
